@@ -29,6 +29,7 @@ structure Position where
 structure Pool where
   spacing : Int
   spf : Int                 -- spread factor, Dec
+  scale : Int := 10 ^ 18    -- spread-reward accumulator scaling factor of this pool (Dec; one or 10^27)
   sqrtPrice : Int := 0      -- BigDec
   tick : Int := 0
   liquidity : Int := 0      -- Dec
@@ -195,7 +196,7 @@ def transferPosition (p : Pool) (sender : String) (id : Nat) (newOwner : String)
 /-- `SwapExactAmountIn` / `SwapExactAmountOut` on the pool's own state. -/
 def swap (p : Pool) (outGivenIn zfo : Bool) (specified : Int) : Option (Pool × Int × Int × Int) := do
   if p.positions.isEmpty then none else pure ()      -- NoSpotPriceWhenNoLiquidityError
-  let (r, fee) ← execSwap outGivenIn zfo p.spf ⟨p.sqrtPrice, p.tick, p.liquidity⟩ (p.ticks.map fun t => (t.tick, t.net)) specified
+  let (r, fee) ← execSwapS p.scale outGivenIn zfo p.spf ⟨p.sqrtPrice, p.tick, p.liquidity⟩ (p.ticks.map fun t => (t.tick, t.net)) specified
   -- updatePoolForSwap: tokenIn − fee to the pool, fee to the spread-reward address, tokenOut from the pool
   let toPool := r.amountIn - fee
   -- bank.SendCoins rejects a coin with a non-positive amount (invalid coins): tokenIn − fee and tokenOut
